@@ -4,7 +4,7 @@ import json, subprocess, os
 
 A_NOTE = ("Trusted: the harness's own bookkeeping (BFS, fold of emitted events, monitors built from the layout and the physical history only), "
           "the snapshot/restore hook (re-validated every run by replaying BFS histories on a fresh mapper), key-class symmetry for keys a layout does not mention. "
-          "Bounds: N keys held at once, generated layouts of <=3 mappings over a 4-key physical alphabet plus foreign keys, fixed corpus read from the tree.")
+          "Bounds: N keys held at once, generated layouts of <=3 mappings over a 4-key physical alphabet plus foreign keys, the hand-built families Q4, S4/S5, O3, M2, K1-K4 (DESIGN 3.2), fixed corpus read from the tree.")
 
 CHECKS = {
  "C01": ("model_checking", "A", "3.1, 6-C01", "explicit-state BFS to fixpoint over the real Mapper::step",
@@ -25,13 +25,13 @@ CHECKS = {
          "While a modifier is certainly absorbed: (a) no observed firing of a mapping requiring it from another trigger, (b) it is not down at non-modifier presses, (c) immediate re-press of the trigger refires, (d) an unabsorbed modifier counts. (The stacked-absorption corner found by this check was first recorded as a known finding and later repaired, commit 5511313; its signature no longer suppresses anything.)"),
  "C09": ("model_checking", "A", "6-C09", "explicit-state BFS over the real Mapper::step; reference repeat instruction as transition predicate",
          "Every step's repeat instruction (Repeating exactly the fired Special mapping's parameters / Disabled / NoChange with no events for ignored events) in every reachable state."),
- "C10": ("model_checking", "B", "4, 6-C10", "stateless DFS (prefix replay) over all delivery schedules of the real per-device loop under a scripted driver",
+ "C10": ("model_checking", "B", "4, 6-C10", "stateless DFS (prefix replay) over all delivery schedules of the real per-device loop under a scripted driver; plus bounded-exhaustive stepped scenarios of the real driver on real descriptors (Engine R)",
          "Every history over a small key alphabet up to the length bound, every way of batching it into arrivals under edge-triggered readiness, late arrivals between reads, spurious time-outs and interruptions up to the deviation bound, end-of-device at every point: the writes equal a fresh real mapper's non-empty step outputs, each written at once; no poll while notified events are unread; no call after End."),
  "C11": ("model_checking", "B", "4.2, 6-C11, 7.7", "stateless DFS over delivery schedules and time-out placements with a virtual clock owned by the environment",
          "Every placement of on-time and late time-outs between events: poll time-outs never reach beyond the next due time, a chord is written exactly in reaction to a time-out at/after the due time anchored at the firing (no drift), its payload leaves held keys alone and the held set unchanged, nothing is written at other times."),
- "C12": ("model_checking", "B", "4.2, 6-C12, 7.6", "stateless DFS over delivery schedules including tablet-switch events on a second device",
+ "C12": ("model_checking", "B", "4.2, 6-C12, 7.6", "stateless DFS over delivery schedules including tablet-switch events on a second device; plus bounded-exhaustive stepped scenarios of the real driver and tablet-switch reader on real descriptors (Engine R)",
          "Every placement of On/Off events (repeated, Off first, sharing a wake-up with keyboard events in both orders, while chords or timers are live): held keys released at once, nothing written until Off, fresh start after Off."),
- "C20": ("fault_enumeration", "B", "6-C20", "exhaustive fault injection: every driver call of every explored execution fails in turn",
+ "C20": ("fault_enumeration", "B", "6-C20", "exhaustive fault injection: every driver call of every explored execution fails in turn; plus descriptor-state faults (EAGAIN, EPIPE, ECONNRESET) under the real driver at every step of stepped scenarios (Engine R)",
          "For every execution of the schedule set and every k: the k-th driver call returns an error; the loop must return that error and make no further driver call."),
  "C13": ("exploration", "C", "5.1, 6-C13", "bounded-exhaustive enumeration of layout programs from a grammar against a reference expander (differential through the real loader)",
          "Every program of the grammar (alias set-ups x rows x positions x all printable ASCII characters; single mappings over modifier/output/repeat/absorbing forms with neighbours; whole-row programs; ordered tuples of sources): the converter's output equals the hand-written expansion, group by group in source order; respelled variants convert identically."),
@@ -63,7 +63,8 @@ def repo_hook_commits():
 ENGINES = [
  {"name": "A", "path": "harness/src/engine_a.rs", "serves_properties": ["C01","C02","C03","C04","C05","C06","C07","C08","C09","C19","C14"], "kind_free_text": "explicit-state BFS to fixpoint over the real Mapper::step/release_all with product monitors; partition refinement for C06"},
  {"name": "B", "path": "harness/src/engine_b.rs", "serves_properties": ["C10","C11","C12","C20"], "kind_free_text": "stateless DFS over environment choices of a scripted driver + virtual clock running the real do_remapping_loop_one_device"},
- {"name": "C", "path": "harness/src/engine_c", "serves_properties": ["C13","C14","C15","C16","C17","C18"], "kind_free_text": "bounded-exhaustive input enumeration of the pure functions against small reference models"},
+ {"name": "R", "path": "harness/src/engine_r.rs", "serves_properties": ["C10","C12","C20"], "kind_free_text": "the real RealDriver, readers, writer and poll registry over socket pairs and a pipe, stepped deterministically (loop thread observed at rest in epoll_wait); bounded-exhaustive scenario families with descriptor-state faults"},
+ {"name": "C", "path": "harness/src", "serves_properties": ["C13","C14","C15","C16","C17","C18"], "kind_free_text": "bounded-exhaustive input enumeration of the pure functions against small reference models; one file per property: c13.rs ... c18.rs"},
 ]
 
 def main():
